@@ -50,6 +50,21 @@ impl ReplayProtection {
     }
 }
 
+#[cfg(feature = "verif")]
+impl ReplayProtection {
+    /// Canonical read-only dump: most recent sequence and the non-empty window entries (verification hook).
+    pub fn verif_dump(&self) -> String {
+        let entries: Vec<String> = self
+            .received_packet
+            .iter()
+            .enumerate()
+            .filter(|(_, v)| **v != EMPTY)
+            .map(|(i, v)| format!("{}:{}", i, v))
+            .collect();
+        format!("mr={},w=[{}]", self.most_recent_sequence, entries.join(";"))
+    }
+}
+
 #[cfg(test)]
 mod tests {
     use super::*;
